@@ -27,17 +27,19 @@ func vhIsKeyNotFound(err error) bool {
 	return errors.As(err, &knf)
 }
 
-//vh:prop C02 C05 C09 C06
+//vh:prop C02 C05 C09 C06 C03
 //vh:param leaves 2 3
 //vh:param perleaf 3 4
 func VH_C02_MapStep() {
 	vhSetThreshold(256)
-	storage := vhNewBasicStorage()
+	logst := &vLogStorage{BasicSlabStorage: vhNewBasicStorage()}
+	storage := logst.BasicSlabStorage
 	addr := vhAddr(1)
 	b := &vDigesterBuilder{levels: 4}
 	counts := vhMapShape()
-	m, model := vhBuildMap(storage, addr, b, counts)
+	m, model := vhBuildMap(logst, addr, b, counts)
 	rootID := m.SlabID()
+	snap := vhSnapshotAll(logst)
 	n := len(model)
 	op := vhChoose("op", 5)
 	switch op {
@@ -101,8 +103,9 @@ func VH_C02_MapStep() {
 		vhAssert(vhIsKeyNotFound(err), "remove absent: key-not-found")
 	}
 	vhAssert(m.SlabID() == rootID, "root id stable")
+	vhCheckDirtyMarks(logst, snap, "dirty marks")
 	vhCheckMap(m, addr, model, "post")
-	m2, err := NewMapWithRootID(storage, rootID, b)
+	m2, err := NewMapWithRootID(logst, rootID, b)
 	vhAssert(err == nil, "reopen by root id")
 	if err == nil {
 		vhCheckMap(m2, addr, model, "reopened")
